@@ -6,14 +6,16 @@
 (*   [op |-> "del", key, out]               del x[key]                                                *)
 (*   [op |-> "rebuild", out, src_same]      type(x)(x); the new instance replaces x when it succeeds; *)
 (*                                          src_same = 1 when x itself was left as it was             *)
-(* One TLC behaviour per history; cur = the items the instance holds.  After a rejected event the     *)
-(* behaviour goes on from the items that were observed, so that the rest is still examined.           *)
+(* Every event also carries  now = the items the live instance holds after it (after a rebuild that   *)
+(* raised: the source, which lives on).  One TLC behaviour per history; cur = the items the instance  *)
+(* holds; each event is judged from the state that was observed before it, so that one deviation      *)
+(* (reported where it happens) does not make the rest of the history look wrong.                      *)
 EXTENDS NamedDict, Batch, SequencesExt
 VARIABLE cur
 
 Report(v) == IF v = "" THEN TRUE ELSE Reject(1000 * c + l + 1, v)
 Got(e) == [kind |-> e.out.kind, cls |-> e.out.cls, items |-> SeqSet(e.out.items)]
-Follow(e) == cur' = IF e.out.kind = "inst" THEN SeqSet(e.out.items) ELSE cur
+Follow(e) == cur' = SeqSet(e.now)
 H == Obs[c]
 
 Init == c \in 1..N /\ l = 0 /\ cur = {}
